@@ -44,14 +44,14 @@ Cases == {c \in [lvl : Lvls, txt : Txts, extra : Extras, at : Ats, tr : {"pipe",
              /\ c.route # "inline" => (c.lvl = "INFO" /\ c.txt = "ascii")
              /\ c.route = "shm" => c.tr = "pipe"
              /\ c.route = "buf" => (c.tr = "http" /\ c.at \in ProdAts)}
-\* a socket session reads its output to the end when it is left, whatever the way out; over HTTP an exchange has read the
-\* whole response before it returns the batch, but a producer session abandons what follows the batch it was asked for
-MustDeliver(c) == ~(c.tr = "http" /\ c.at = "tail_prod")
+\* a socket session reads its output to the end when it is left, whatever the way out; over HTTP a response is read
+\* completely when it arrives.  Either way the message has been delivered once the caller has left the session.
+MustDeliver(c) == TRUE
 Expected(c) == [delivered |-> IF MustDeliver(c) THEN 1 ELSE 0, intact |-> TRUE]
 
 ReservedNames(c) == c.extra \in {"level", "message", "self", "both"}
 AlwaysDelivered(c) == (MustDeliver(c) <=> Expected(c).delivered = 1) /\ Expected(c).intact
-OnlyHttpProducerTailMayBeLost(c) == ~MustDeliver(c) => (c.tr = "http" /\ c.at = "tail_prod")
+OnlyHttpProducerTailMayBeLost(c) == MustDeliver(c)
 
 (* o = [failed, delivered, level_ok, text_ok, extra_ok, before_payload]
      before_payload: the callback ran before the result / batch the message precedes was returned to the caller
